@@ -33,7 +33,7 @@ RULE = {
            "non-trivial = >=1 produced value judged against its recorded draws; distinct = distinct (API, size, alphabet size, source mode, "
            "which of {bijection-sample, bit-flip, exhaustive, statistics} ran)",
 }
-FAULT_KINDS = {"C06": ["source_zeros", "source_ones", "source_counter", "source_single_bit", "source_bit_flip", "source_scripted_exhaustive"]}
+FAULT_KINDS = {"C06": ["source_zeros", "source_ones", "source_counter", "source_single_bit", "source_bit_flip", "source_scripted_exhaustive", "wordset_overwritten_with_duplicates"]}
 COMPONENTS = {
     "real": ["passlib.utils.getrandbytes / getrandstr / generate_password", "salt generation of every palette hasher (HasSalt / HasRawSalt / bcrypt repair)",
              "passlib.totp.TOTP.new / generate_secret", "passlib.pwd.genword / genphrase", "passlib.handlers.django.django_disabled",
@@ -110,6 +110,16 @@ def generate(rng, prop, tier):
         p["length"] = rng.choice([None, None, 1, 3, 8])
         p["wordset"] = rng.choice([None, "eff_long", "eff_short", "eff_prefixed", "bip39"])
         p["words"] = rng.choice([None, None, ["alpha", "beta", "gamma", "delta", "epsilon"]]) if p["wordset"] is None else None
+        if rng.random() < 0.25:
+            # history on the public wordset registry: a custom set is registered and used, then the same name is overwritten
+            pool = ["red", "green", "blue", "cyan", "pink", "grey", "gold", "teal", "plum", "lime"]
+            first = rng.sample(pool, rng.choice([2, 4, 8]))
+            second = rng.sample(pool, rng.choice([2, 4, 8]))
+            if rng.random() < 0.5:
+                second = second + [second[0]] * rng.choice([1, 2, 6])  # duplicates: must be refused, not silently under-deliver entropy
+                rng.shuffle(second)
+            p["registry"] = {"name": rng.choice(["custom", "team-words"]), "first": first, "second": second}
+            p["wordset"], p["words"] = p["registry"]["name"], None
     elif api == "libpass_salt":
         p["length"] = rng.choice([1, 1, 2, 8, 16, 22])
         p["by_entropy"] = rng.random() < 0.3
@@ -245,6 +255,21 @@ class _Gen:
             from passlib import pwd
 
             kw = {k: v for k, v in (("entropy", p["entropy"]), ("length", p["length"]), ("wordset", p["wordset"]), ("words", p["words"])) if v is not None}
+            reg = p.get("registry")
+            if reg:
+                pwd.default_wordsets[reg["name"]] = list(reg["first"])
+                pwd.genphrase(**kw)  # the name has been used once with its first contents
+                pwd.default_wordsets[reg["name"]] = list(reg["second"])
+                self.dup_words = len(set(reg["second"])) != len(reg["second"])
+                if self.dup_words:
+                    # a word list with duplicates cannot give uniform phrases of the computed entropy: it must be refused
+                    try:
+                        pwd.PhraseGenerator(**kw)
+                        self.dup_outcome = "accepted"
+                    except ValueError:
+                        self.dup_outcome = "refused"
+                    self.call = None
+                    return
             gen = pwd.PhraseGenerator(**kw)
             self.words = list(gen.words)
             self.n = gen.length
@@ -344,6 +369,14 @@ def execute(program, ctx):
             g = _Gen(cfg, src)
         except Exception as e:
             ctx.fail("C06", "generator-setup-raises", f"{api} {cfg['params']}: {type(e).__name__}: {e}", api=api, exc=type(e).__name__)
+        if g.call is None and getattr(g, "dup_words", False):
+            ctx.fault("wordset_overwritten_with_duplicates")
+            ctx.check(g.dup_outcome == "refused", "C06", "duplicate-words-accepted",
+                      f"genphrase {cfg['params']}: the registered word set was overwritten by a list with duplicates and accepted: phrases are "
+                      f"not uniform and carry less than the computed entropy", api=api)
+            ctx.nontrivial = True
+            ctx.key(api, "registry-duplicates", g.dup_outcome)
+            return
         _run(cfg, ctx, src, g)
 
 
